@@ -439,7 +439,7 @@ fn condition_cases(ctx: &Ctx) -> Vec<(Case, bool)> {
 }
 
 pub fn run(ctx: &Ctx) {
-    ctx.set_rule("all nestings of {bare block, if, else, else-if, while, for over list / string / object, call of a named / anonymous / method function} to depth 3 (quick: depth 4 sampled 1:24; thorough: depth 4 complete) with one of break / continue / return v / nothing at the innermost position, unguarded and guarded (taken from the second iteration on), traces before / inside / after every construct and after the jump; every truth assignment of 1..3-branch if chains with tracing conditions; loop bodies that overwrite, rebind, grow or range-assign the iterated container, while conditions with side effects, continue on the last iteration, jumps outside any target and inside a function called from a loop; oracle: reference interpreter (exact trace, return value, error iff reference error); `while` and `if`-inside-a-loop with 34 condition shapes (interpolations, calls, container literals, closures, type functions), each true exactly while n < 3; loops of 30+ turns; nestings of depth 6 and 8. Non-trivial = the jump crosses at least one construct before its target; distinct = distinct source texts");
+    ctx.set_rule("all nestings of {bare block, if, else, else-if, while, for over list / string / object, call of a named / anonymous / method function} to depth 3 (quick: depth 4 sampled 1:24; thorough: depth 4 complete) with one of break / continue / return v / nothing at the innermost position, unguarded and guarded (taken from the second iteration on), traces before / inside / after every construct and after the jump; every truth assignment of 1..3-branch if chains with tracing conditions; loop bodies that overwrite, rebind, grow or range-assign the iterated container, while conditions with side effects, continue on the last iteration, jumps outside any target and inside a function called from a loop; oracle: reference interpreter (exact trace, return value, error iff reference error); `while` and `if`-inside-a-loop with 34 condition shapes (interpolations, calls, container literals, closures, type functions), each true exactly while n < 3; loops of 30+ turns; nestings of depth 6 and 8; the snapshot for 13 ways of writing the iterable x 8 ways of changing it from the body (lists), 6 x 5 (objects). Non-trivial = the jump crosses at least one construct before its target; distinct = distinct source texts");
     ctx.replay_corpus(None);
     let mut cases = vec![];
     cases.extend(nestings(ctx, 1, 1));
